@@ -151,6 +151,8 @@ pub struct Req {
     pub outcome: Option<Outcome>,
     pub waker: Option<Waker>,
     pub done_ns: Option<u64>,
+    /// scheduler step at which the worker consumed the outcome
+    pub done_step: Option<u64>,
     /// dropped before completion (worker cancelled / exited)
     pub dropped: bool,
 }
@@ -193,6 +195,7 @@ impl Future for FetchWait {
             Some(o) => {
                 if r.done_ns.is_none() {
                     r.done_ns = Some(now);
+                    r.done_step = Some(self.sim.with(|s| s.steps));
                 }
                 match o {
                     Outcome::Ok(v) => Poll::Ready(Ok(v)),
@@ -228,7 +231,7 @@ impl PathFetcher for SimFetcher {
                 None => None,
             };
             let now = self.sim.now_ns();
-            st.reqs.push(Req { id, pair: (src, dst), actor: simrt::current_actor(), start_ns: now, outcome: planned, waker: None, done_ns: None, dropped: false });
+            st.reqs.push(Req { id, pair: (src, dst), actor: simrt::current_actor(), start_ns: now, outcome: planned, waker: None, done_ns: None, done_step: None, dropped: false });
             id
         };
         self.sim.log(format!("lookup.start #{id} {src}->{dst}"));
